@@ -127,8 +127,12 @@ def expand(batch):
     acc = core.Acc()
     succ = {}
     for key, hists in batch:
+        if core.AXIS and key[1] % 8 != _SEED % 8 and key[1] != 0:
+            continue                 # on an environment axis: every eighth residue class
         r = 1012 - key[1]
         sizes = menu(r, _TIER, fresh=(key[1] == 0 and key[2] == 0))
+        if core.AXIS:
+            sizes = sizes[::7]       # on an environment axis: a seventh of the write sizes from every state
         per_hist = []
         for hist in hists:
             res = {}
@@ -194,6 +198,47 @@ def oneshot_task(task):
     return acc
 
 
+def style_task(task):
+    """how a copy loop really drives the blocker: ONE mutable buffer, refilled before every write and overwritten
+    after it (readinto style: what was passed must not be kept by reference), and flush() between the writes
+    (flushing is not finalising). Chunk sizes 1..40 and a few around the block size, every total length in the range."""
+    from cardutil.mciipm import Block1014
+    acc = core.Acc()
+    data = pay('pos')
+    for L in range(task['lo'], task['hi']):
+        for chunk in (1, 2, 3, 7, 40, 500, 1011, 1012, 1013, 2024):
+            if chunk < 7 and L > 60 and L % 97:
+                continue            # tiny chunks on long streams: a sample is enough (the block edge is L-independent)
+            for style in ('reuse', 'flush', 'reuse+flush'):
+                case = {'style': style, 'len': L, 'chunk': chunk, 'seed': _SEED}
+                acc.case(('style', style, L, chunk), nontrivial=True, outcome='style')
+                try:
+                    f = CapIO()
+                    b = Block1014(f)
+                    buf = bytearray(chunk)
+                    off = 0
+                    while off < L:
+                        n = min(chunk, L - off)
+                        if 'reuse' in style:
+                            buf[:n] = data[off:off + n]
+                            b.write(memoryview(buf)[:n] if (off // chunk) % 2 else buf[:n] if n == chunk and False
+                                    else memoryview(buf)[:n])
+                            for j in range(n):
+                                buf[j] = 0x5a
+                        else:
+                            b.write(data[off:off + n])
+                        if 'flush' in style:
+                            b.flush()
+                        off += n
+                    why = judge(finalise(f, b, 'finalise'), data[:L])
+                except Exception as ex:
+                    why = 'exception %r' % ex
+                acc.transitions += 1
+                if why:
+                    acc.viol('c04.style.%s' % style.replace('+', '_'), case, why, 'reference blocking of the bytes written')
+    return acc
+
+
 HEADERS = [1, 6, 500, 1008, 1009, 1013, 1014, 1020, 2027]
 
 
@@ -242,7 +287,10 @@ def run(tier, seed):
     for a in core.pmap(oneshot_task, [{'lo': lo, 'hi': min(lo + 100, top + 1)} for lo in range(0, top + 1, 100)]):
         acc.merge(a)
     htop = 2100 if tier == 'quick' else 4100
-    for a in core.pmap(header_task, [{'lo': lo, 'hi': min(lo + 50, htop + 1)} for lo in range(0, htop + 1, 50)]):
+    for a in core.pmap(header_task, [{'lo': lo, 'hi': min(lo + 50, htop + 1)} for lo in range(0, htop + 1, 50)][::4 if core.AXIS else 1]):
+        acc.merge(a)
+    stop = 1100 if tier == 'quick' else 3100
+    for a in core.pmap(style_task, [{'lo': lo, 'hi': min(lo + 25, stop + 1)} for lo in range(0, stop + 1, 25)][::4 if core.AXIS else 1]):
         acc.merge(a)
     residues = {k[1] for k in seen}
     caps = [acc.counters['bfs_cap_hit']] if 'bfs_cap_hit' in acc.counters else []
@@ -284,6 +332,8 @@ def replay_case(case):
         return a
     if 'header' in case:
         return header_task({'lo': case['len'], 'hi': case['len'] + 1})
+    if 'style' in case:
+        return style_task({'lo': case['len'], 'hi': case['len'] + 1})
     hist = case['hist']
     if case.get('write') is None:
         f, b, off = build(hist, case['coding'])
